@@ -376,6 +376,9 @@ class TestCaseExecutor(AbstractTestCaseExecutor):
 
         with ter.ExecutionRecorder(test_case):
             output_suppression_context = OutputSuppressionContext()
+            # The SUT may switch off logging for the whole process; restore it from
+            # this thread, never from a possibly abandoned execution thread.
+            saved_logging_disable = logging.root.manager.disable
             return_queue: Queue[ExecutionResult] = Queue()
             thread = threading.Thread(
                 target=self._execute_test_case,
@@ -412,6 +415,7 @@ class TestCaseExecutor(AbstractTestCaseExecutor):
                     # allows the EA to continue with the search process.
                     _LOGGER.error("Bug in Pynguin!")
                     result = ExecutionResult(timeout=True)
+            logging.disable(saved_logging_disable)
             self._after_remote_test_case_execution(test_case, result)
             self._subject_properties.validate_execution_trace(result.execution_trace)
             return result
